@@ -113,9 +113,55 @@ DISTS = {
     "chisquare": ("chisquare", "chisquare", ("df",), True),
     "choice": ("choice", "choice", (), False),
     "permutation": ("permutation", "permutation", (), False),
+    # ---- parameter audit: the remaining distributions of both APIs (None = the API has no such method)
+    "f": ("f", "f", ("dfnum", "dfden"), True),
+    "geometric": ("geometric", "geometric", ("p",), False),
+    "gumbel": ("gumbel", "gumbel", ("loc", "scale"), True),
+    "hypergeometric": ("hypergeometric", "hypergeometric", ("ngood", "nbad", "nsample"), False),
+    "laplace": ("laplace", "laplace", ("loc", "scale"), True),
+    "logistic": ("logistic", "logistic", ("loc", "scale"), True),
+    "lognormal": ("lognormal", "lognormal", ("mean", "sigma"), True),
+    "logseries": ("logseries", "logseries", ("p",), False),
+    "multinomial": ("multinomial", "multinomial", ("n", "pvals"), False),
+    "multivariate_hypergeometric": ("multivariate_hypergeometric", None, ("colors", "nsample"), False),
+    "negative_binomial": ("negative_binomial", "negative_binomial", ("n", "p"), False),
+    "noncentral_chisquare": ("noncentral_chisquare", "noncentral_chisquare", ("df", "nonc"), True),
+    "noncentral_f": ("noncentral_f", "noncentral_f", ("dfnum", "dfden", "nonc"), True),
+    "pareto": ("pareto", "pareto", ("a",), True),
+    "power": ("power", "power", ("a",), True),
+    "rayleigh": ("rayleigh", "rayleigh", ("scale",), True),
+    "standard_cauchy": ("standard_cauchy", "standard_cauchy", (), True),
+    "standard_exponential": ("standard_exponential", "standard_exponential", (), True),
+    "standard_gamma": ("standard_gamma", "standard_gamma", ("shape",), True),
+    "standard_t": ("standard_t", "standard_t", ("df",), True),
+    "triangular": ("triangular", "triangular", ("left", "mode", "right"), True),
+    "vonmises": ("vonmises", "vonmises", ("mu", "kappa"), True),
+    "wald": ("wald", "wald", ("mean", "scale"), True),
+    "weibull": ("weibull", "weibull", ("a",), True),
+    "zipf": ("zipf", "zipf", ("a",), False),
+    "random_integers": (None, "random_integers", ("low", "high"), False),
+    "tomaxint": (None, "tomaxint", (), False),
+    "random-alias": (None, "random", (), True),          # RandomState.random / da.random.random = random_sample
 }
+OLD = ["random", "standard_normal", "normal", "uniform", "integers", "poisson", "binomial", "exponential", "gamma", "beta",
+       "chisquare", "choice", "permutation"]
 WRAPPED = [d for d in DISTS if d not in ("choice", "permutation")]
+NO_MODULE_FUNC = {"tomaxint", "multivariate_hypergeometric"}       # no module-level function of that name
+NO_ARRAY_PARAM = {"pvals", "colors"}                                # vector-valued by themselves
+EXTRA_DIM = {"multinomial", "multivariate_hypergeometric"}          # result has one more axis than size
 _POOL = {}
+
+
+def _apis(dist):
+    g, r = DISTS[dist][0], DISTS[dist][1]
+    out = []
+    if g:
+        out += ["gen", "gen"]
+    if r:
+        out += ["rs", "rs"]
+        if dist not in NO_MODULE_FUNC:
+            out.append("mod")
+    return out
 
 
 def _params(rng, dist):
@@ -139,63 +185,224 @@ def _params(rng, dist):
         return {"a": rng.choice((0.5, 1.0, 2.0)), "b": rng.choice((0.5, 1.0, 3.0))}
     if dist == "chisquare":
         return {"df": rng.choice((1.0, 2.0, 5.0))}
+    if dist in ("gumbel", "laplace", "logistic"):
+        return {"loc": rng.choice((0.0, -2.5, 10.0)), "scale": rng.choice((1.0, 0.1, 3.0))}
+    if dist == "lognormal":
+        return {"mean": rng.choice((0.0, -1.0, 2.0)), "sigma": rng.choice((1.0, 0.25))}
+    if dist == "f":
+        return {"dfnum": rng.choice((1.0, 3.0, 10.0)), "dfden": rng.choice((2.0, 5.0, 40.0))}
+    if dist == "noncentral_f":
+        return {"dfnum": rng.choice((1.0, 3.0, 10.0)), "dfden": rng.choice((2.0, 5.0, 40.0)), "nonc": rng.choice((0.0, 1.0, 4.0))}
+    if dist == "noncentral_chisquare":
+        return {"df": rng.choice((1.0, 2.0, 5.0)), "nonc": rng.choice((0.0, 1.0, 4.0))}
+    if dist in ("geometric", "logseries"):
+        return {"p": rng.choice((0.3, 0.6, 0.9))}
+    if dist == "negative_binomial":
+        return {"n": rng.choice((1, 5, 20)), "p": rng.choice((0.1, 0.5, 0.9))}
+    if dist == "hypergeometric":
+        return {"ngood": rng.choice((4, 7, 30)), "nbad": rng.choice((3, 9)), "nsample": rng.choice((3, 5, 6))}
+    if dist == "multinomial":
+        return {"n": rng.choice((1, 5, 20)), "pvals": rng.choice(([0.5, 0.5], [0.2, 0.3, 0.5], [0.1, 0.2, 0.3, 0.4], [1.0]))}
+    if dist == "multivariate_hypergeometric":
+        return {"colors": rng.choice(([3, 4, 5], [10, 2], [6, 6, 6, 6])), "nsample": rng.choice((1, 4, 8))}
+    if dist in ("pareto", "power", "weibull"):
+        return {"a": rng.choice((0.5, 1.0, 3.0))}
+    if dist == "zipf":
+        return {"a": rng.choice((1.5, 2.0, 4.0))}
+    if dist == "rayleigh":
+        return {"scale": rng.choice((1.0, 0.2, 5.0))}
+    if dist == "standard_gamma":
+        return {"shape": rng.choice((0.5, 1.0, 2.0, 9.0))}
+    if dist == "standard_t":
+        return {"df": rng.choice((1.0, 2.0, 5.0))}
+    if dist == "triangular":
+        lo = rng.choice((0.0, -1.0, 5.0))
+        md = lo + rng.choice((1.0, 2.0))
+        return {"left": lo, "mode": md, "right": md + rng.choice((0.5, 3.0))}
+    if dist == "vonmises":
+        return {"mu": rng.choice((0.0, 1.0, -2.0)), "kappa": rng.choice((0.5, 1.0, 4.0))}
+    if dist == "wald":
+        return {"mean": rng.choice((0.5, 1.0, 3.0)), "scale": rng.choice((1.0, 2.0))}
+    if dist == "random_integers":
+        lo = rng.choice((0, -5, 3))
+        return {"low": lo, "high": lo + rng.choice((0, 1, 10, 1000))}
     return {}
+
+
+def _is_irr3(c):
+    """>= 3 blocks that are not 'equal blocks with a shorter last one' (what an int chunk size gives)"""
+    c = list(c)
+    return len(c) >= 3 and (len(set(c[:-1])) > 1 or c[-1] > c[0])
+
+
+def _irr3(rng, n):
+    for _ in range(20):
+        k = rng.randint(2, min(n - 1, 5))
+        cuts = sorted(rng.sample(range(1, n), k))
+        b = [0] + cuts + [n]
+        c = [y - x for x, y in zip(b, b[1:])]
+        if _is_irr3(c):
+            return c
+    return [1, n - 3, 2]
 
 
 def _chunk_desc(rng, shape):
     u = rng.random()
-    if u < 0.7 or not shape:
+    if not shape:
+        return {"t": "explicit", "v": []} if u < 0.7 else {"t": "auto"}
+    if u < 0.5:
         return {"t": "explicit", "v": [list(c) for c in A.rand_chunks(rng, shape)]}
-    if u < 0.85:
+    if u < 0.62:
+        # explicit irregular chunks: >= 3 blocks on the longest axis, a short block before a longer one
+        v = [list(c) for c in A.rand_chunks(rng, shape)]
+        ax = max(range(len(shape)), key=lambda a: shape[a])
+        if shape[ax] >= 4:
+            v[ax] = _irr3(rng, shape[ax])
+        return {"t": "explicit", "v": v}
+    if u < 0.72:
         return {"t": "int", "v": rng.randint(1, max(max(shape), 1))}
+    if u < 0.80:
+        return {"t": "tuple", "v": [rng.randint(1, max(n, 1) + 1) for n in shape]}
+    if u < 0.84:
+        return {"t": "-1"}
+    if u < 0.89:
+        return {"t": "bytes", "v": rng.choice((8, 16, 32, 64, 256))}
+    if u < 0.93:
+        axes = [a for a in range(len(shape)) if rng.random() < 0.6] or [0]
+        return {"t": "dict", "v": [[a, rng.randint(1, max(shape[a], 1))] for a in axes]}
     return {"t": "auto"}
 
 
 def _chunks_arg(d):
-    if d["t"] == "explicit":
+    t = d["t"]
+    if t == "explicit":
         return tuple(tuple(c) for c in d["v"])
-    if d["t"] == "int":
+    if t == "int":
         return d["v"]
+    if t == "tuple":
+        return tuple(d["v"])
+    if t == "-1":
+        return -1
+    if t == "bytes":
+        return "%d B" % d["v"]
+    if t == "dict":
+        return {int(a): c for a, c in d["v"]}
     return "auto"
+
+
+def _seed_desc(rng, api):
+    """(seed value, seed kind).  int seeds as before; the other documented seed forms of each API"""
+    base = rng.choice((0, 1, 42, rng.randrange(2 ** 32)))
+    u = rng.random()
+    if api == "gen":
+        if u < 0.55:
+            return base, "int"
+        return base, rng.choice(("bigint", "array", "seedseq", "bitgen-PCG64", "bitgen-MT19937", "bitgen-Philox", "npgen"))
+    if api == "rs":
+        if u < 0.6:
+            return base, "int"
+        return base, rng.choice(("array", "reseed", "reseed"))
+    return base, ("int" if u < 0.75 else "array")
+
+
+def _big_shape(rng):
+    """a shape with a block of more than 255 elements along one axis and >= 3 irregular blocks"""
+    n = rng.randint(300, 700)
+    a = rng.randint(256, n - 20)
+    b = rng.randint(1, n - a - 1)
+    c = [a, b, n - a - b]
+    rng.shuffle(c)
+    if rng.random() < 0.5:
+        return [n], {"t": "explicit", "v": [c]}
+    if rng.random() < 0.5:
+        return [2, n], {"t": "explicit", "v": [[1, 1], c]}
+    return [n], {"t": rng.choice(("int", "bytes")), "v": rng.choice((256, 2048))}
+
+
+def _wrapped_extras(rng, d, dist, api, shape):
+    """the parameter-passing forms of a wrapped distribution (in place)"""
+    # (multinomial / multivariate_hypergeometric take vectors; NumPy's random_integers converts its bounds with int())
+    pn = [k for k in DISTS[dist][2] if k not in NO_ARRAY_PARAM and dist not in EXTRA_DIM and dist != "random_integers"]
+    if pn and shape and rng.random() < 0.3:
+        drop = rng.randint(0, len(shape) - 1)
+        kept = len(shape) - drop
+        d["arr"] = {"kind": rng.choice(("np", "da")), "drop": drop, "c": rng.randrange(2 ** 16),
+                    "pos": DISTS[dist][2].index(rng.choice(pn)),
+                    "ones": [rng.random() < 0.2 for _ in range(kept)]}
+    if dist == "random" and api == "gen" and rng.random() < 0.3:
+        d["f32"] = True
+    if dist == "integers":
+        if api == "gen" and rng.random() < 0.3:
+            d["endpoint"] = True
+        u = rng.random()
+        if u < 0.3:
+            d["idtype"] = rng.choice(("int8", "uint8", "int32", "uint64", "int16"))
+            lo = rng.choice((0, 3))
+            d["P"] = {"low": lo, "high": lo + rng.choice((1, 2, 10, 100))}
+        if rng.random() < 0.12 and not d.get("arr"):
+            d["hnone"] = True           # integers(high) / randint(high): the one-argument form
+            d["P"] = {"low": max(d["P"]["high"], 1), "high": None}
+    # size forms: tuple (default), int for 1-d, list, None (0-d, or the shape of a full-size array parameter)
+    u = rng.random()
+    if len(shape) == 1 and u < 0.25:
+        d["sform"] = "int"
+    elif shape and u < 0.35:
+        d["sform"] = "list"
+    elif u < 0.6 and (not shape or (d.get("arr") and d["arr"]["drop"] == 0 and not any(d["arr"]["ones"]))):
+        d["sform"] = "none"
+    if DISTS[dist][2] and rng.random() < 0.15 and not d.get("hnone"):
+        d["kwform"] = True              # parameters passed by keyword
+    if rng.random() < 0.025 and dist not in EXTRA_DIM and not d.get("arr"):
+        d["shape"], d["chunks"] = _big_shape(rng)
+        d.pop("sform", None)
 
 
 def cases(tier, seed):
     rng = random.Random(seed * 6151 + 28)
-    n = 2000 if tier == "quick" else 24000
+    n = 3000 if tier == "quick" else 27000
+    pool = OLD * 3 + [d for d in DISTS if d not in OLD]
+    upool = [d for d in OLD if d not in ("choice", "permutation")] * 3 + [d for d in WRAPPED if d not in OLD] + ["choice"] * 5 + ["permutation"] * 2
     for i in range(n):
         u = rng.random()
-        if u < 0.5:
+        if u < 0.52:
             # ---- seeded reproducibility ------------------------------------------------------------
-            dist = rng.choice(list(DISTS))
+            dist = rng.choice(pool)
             shape = A.rand_shape(rng, maxnd=3, maxlen=6)
-            api = rng.choice(("gen", "gen", "rs", "rs", "mod"))
+            api = rng.choice(_apis(dist))
+            sv, sk = _seed_desc(rng, api)
             d = {"k": "seeded", "api": api, "dist": dist, "P": _params(rng, dist), "shape": list(shape),
-                 "chunks": _chunk_desc(rng, shape), "seed": rng.choice((0, 1, 42, rng.randrange(2 ** 32))),
+                 "chunks": _chunk_desc(rng, shape), "seed": sv, "skind": sk,
                  "sched": "processes" if rng.random() < 1 / 15 else "threads"}
-            if dist in WRAPPED and DISTS[dist][2] and shape and rng.random() < 0.3:
-                d["arr"] = {"kind": rng.choice(("np", "da")), "drop": rng.randint(0, len(shape) - 1),
-                            "c": rng.randrange(2 ** 16)}
-            if dist == "random" and api == "gen" and rng.random() < 0.3:
-                d["f32"] = True
-            if dist == "integers" and api == "gen" and rng.random() < 0.3:
-                d["endpoint"] = True
+            if dist in WRAPPED:
+                _wrapped_extras(rng, d, dist, api, shape)
             if dist == "choice":
                 d["pop"] = _population(rng)
                 d["p"] = rng.random() < 0.4
+                _choice_extras(rng, d, api, shape)
             if dist == "permutation":
                 d.update(_perm_input(rng))
+            # STATE: other arrays drawn from the same generator object before this one (and a refused call)
+            if rng.random() < 0.35:
+                d["pre"] = [rng.choice(([3, 2], [1, 1], [5, 5], [4, 3], "fail", [0, 1])) for _ in range(rng.randint(1, 3))]
             yield d
-        elif u < 0.75:
+        elif u < 0.76:
             # ---- unseeded pairs -----------------------------------------------------------------------
-            dist = rng.choice(WRAPPED * 2 + ["choice", "choice", "choice", "permutation"])
+            dist = rng.choice(upool)
             shape = A.rand_shape(rng, maxnd=3, maxlen=6)
-            d = {"k": "unseeded", "mode": rng.choice(("module", "module", "default_rng-twice", "default_rng-twice",
-                                                      "one-generator-twice", "RandomState-twice", "one-RandomState-twice")),
+            modes = {"gen": ("default_rng-twice", "default_rng-twice", "one-generator-twice"),
+                     "rs": ("RandomState-twice", "one-RandomState-twice"), "mod": ("module", "module")}
+            mode = rng.choice([m for a in sorted(set(_apis(dist))) for m in modes[a]])
+            api = {"module": "mod", "default_rng-twice": "gen", "one-generator-twice": "gen", "RandomState-twice": "rs",
+                   "one-RandomState-twice": "rs"}[mode]
+            d = {"k": "unseeded", "mode": mode,
                  "dist": dist, "P": _params(rng, dist), "shape": list(shape), "chunks": _chunk_desc(rng, shape),
                  "sched": rng.choice(("sync", "threads", "threads")), "i": i}
+            if dist in WRAPPED:
+                _wrapped_extras(rng, d, dist, api, shape)
             if dist == "choice":
                 d["pop"] = _population(rng)
                 d["p"] = rng.random() < 0.3
+                _choice_extras(rng, d, api, shape)
             if dist == "permutation":
                 d.update(_perm_input(rng))
             yield d
@@ -213,7 +420,11 @@ def cases(tier, seed):
             else:
                 a = rng.randint(1, max(1, n_pop // 2))
                 size = [a, rng.randint(1, max(1, n_pop // a))]
-            form = "int" if len(size) == 1 and rng.random() < 0.5 else "tuple"
+                if n_pop >= 8 and rng.random() < 0.3:
+                    # 3-d sample: only the last axis (or a middle one) may be split below
+                    b_ = rng.randint(1, max(1, n_pop // (a * 2)))
+                    size = [a, b_, max(1, n_pop // (a * b_))]
+            form = "int" if len(size) == 1 and rng.random() < 0.5 else ("list" if rng.random() < 0.15 else "tuple")
             if rng.random() < 0.05:
                 size, form = [], "none"
             ch = [[s] for s in size]
@@ -222,7 +433,7 @@ def cases(tier, seed):
                 ax = rng.choice(splittable)
                 ch[ax] = list(A.rand_comp(rng, size[ax], flavour=rng.choice(("two", "ones", "irregular"))))
             yield {"k": "choice", "api": rng.choice(("gen", "gen", "rs", "mod")), "pop": pop, "size": size, "form": form,
-                   "p": rng.random() < 0.4, "pseed": rng.randrange(2 ** 16), "c": ch, "cform": rng.choice(("explicit", "explicit", "auto", "-1")),
+                   "p": rng.random() < 0.4, "pform": rng.choice(("np", "np", "list", "da")), "pseed": rng.randrange(2 ** 16), "c": ch, "cform": rng.choice(("explicit", "explicit", "auto", "-1")),
                    "seed": rng.choice((None, 0, rng.randrange(2 ** 32))), "shuffle": rng.random() < 0.8,
                    "sched": rng.choice(("sync", "threads"))}
         else:
@@ -232,8 +443,19 @@ def cases(tier, seed):
             yield d
 
 
+def _choice_extras(rng, d, api, shape):
+    """with-replacement choice inside the seeded / unseeded families: forms of p and size, the axis / shuffle keywords"""
+    d["pform"] = rng.choice(("np", "np", "list", "da"))
+    if len(shape) == 1 and rng.random() < 0.3:
+        d["sform"] = "int"
+    elif not shape and rng.random() < 0.5:
+        d["sform"] = "none"
+    if api == "gen" and rng.random() < 0.3:
+        d["ckw"] = rng.choice(("axis", "shuffle", "both"))
+
+
 def _population(rng):
-    n = rng.choice((1, 2, 3, 4, 5, 6, 8, 12, 20))
+    n = rng.choice((1, 2, 3, 4, 5, 6, 8, 12, 20, 20, 300))
     kind = rng.choice(("int", "int", "numpy", "dask", "list"))
     d = {"kind": kind, "n": n, "dtype": rng.choice(("int64", "float64", "int8")), "mult": rng.choice((1, 3, -2))}
     if kind == "dask":
@@ -243,9 +465,13 @@ def _population(rng):
 
 def _perm_input(rng):
     if rng.random() < 0.3:
-        return {"x": {"kind": "int", "n": rng.choice((0, 1, 2, 5, 9))}}
-    shape = A.rand_shape(rng, maxnd=2, maxlen=7, minnd=1)
-    return {"x": {"kind": "dask", "shape": list(shape), "c": [list(c) for c in A.rand_chunks(rng, shape)],
+        return {"x": {"kind": "int", "n": rng.choice((0, 1, 2, 5, 9, 300))}}
+    shape = A.rand_shape(rng, maxnd=3, maxlen=7, minnd=1)
+    c = [list(c) for c in A.rand_chunks(rng, shape)]
+    if shape[0] >= 4 and rng.random() < 0.3:
+        c[0] = _irr3(rng, shape[0])
+    # numpy / list: NumPy's documented array_like input (a dask array is the usual one)
+    return {"x": {"kind": rng.choice(("dask", "dask", "dask", "dask", "numpy", "list")), "shape": list(shape), "c": c,
                   "dup": rng.random() < 0.3}}
 
 
@@ -284,7 +510,8 @@ def _pop_value(pop):
 
     if pop["kind"] == "int":
         return pop["n"], np.arange(pop["n"])
-    vals = (np.arange(pop["n"]) * pop["mult"] + 7).astype(pop["dtype"])   # pairwise distinct members
+    # pairwise distinct members (a long population does not fit into int8)
+    vals = (np.arange(pop["n"]) * pop["mult"] + 7).astype(pop["dtype"] if pop["n"] <= 40 else "int64")
     if pop["kind"] == "numpy":
         return vals, vals
     if pop["kind"] == "list":
@@ -311,20 +538,110 @@ def _perm_value(x):
     vals = np.arange(n).reshape(x["shape"])
     if x.get("dup"):
         vals = vals // 2
+    if x["kind"] == "numpy":
+        return vals, vals
+    if x["kind"] == "list":
+        if 0 in x["shape"][1:]:
+            return vals, vals          # a nested list cannot express a zero-length later axis
+        return vals.tolist(), vals
     return da.from_array(vals, chunks=A.chunks_of_desc(x["c"])), vals
 
 
-def _generator(api, seed):
-    """A fresh generator object; seed None = unseeded."""
+def _generator(api, seed, skind="int"):
+    """A fresh generator object; seed None = unseeded.  skind = the documented form in which the seed is handed over."""
     import dask.array as da
 
+    if seed is None:
+        if api == "gen":
+            return da.random.default_rng()
+        if api == "rs":
+            return da.random.RandomState()
+        return da.random
+    arr = [seed % 1000, 7, seed % 2 ** 31]
     if api == "gen":
+        if skind == "bigint":
+            return da.random.default_rng(seed + 2 ** 70)
+        if skind == "array":
+            return da.random.default_rng(arr)
+        if skind == "seedseq":
+            return da.random.default_rng(np.random.SeedSequence(seed))
+        if skind.startswith("bitgen-"):
+            return da.random.default_rng(getattr(np.random, skind[7:])(seed))
+        if skind == "npgen":
+            return da.random.default_rng(np.random.default_rng(seed))
         return da.random.default_rng(seed)
     if api == "rs":
+        if skind == "array":
+            return da.random.RandomState(arr)
+        if skind == "reseed":
+            # an object that was created unseeded, used, and then re-seeded through its seed() method
+            g = da.random.RandomState()
+            g.random_sample(size=(3,), chunks=2)
+            g.seed(seed)
+            return g
         return da.random.RandomState(seed)
-    if seed is not None:
-        da.random.seed(seed)
+    da.random.seed(arr if skind == "array" else seed)
     return da.random        # module-level functions (RandomState API)
+
+
+def _pre(g, api, pre):
+    """STATE: arrays drawn earlier from the same generator object (built, never computed) and refused calls"""
+    for it in pre or ():
+        meth = getattr(g, "random" if api == "gen" else "random_sample")
+        if it == "fail":
+            try:
+                meth(size=(2,), chunks=((3,),))
+            except ValueError:
+                pass
+        else:
+            meth(size=(it[0],), chunks=max(it[1], 1))
+
+
+def _arr_shape(case):
+    ar = case["arr"]
+    shp = list(case["shape"][ar["drop"]:])
+    for i, one in enumerate(ar.get("ones") or ()):
+        if one and i < len(shp):
+            shp[i] = 1
+    return tuple(shp)
+
+
+def _array_param(case, pname, value, size):
+    """the array-valued form of one distribution parameter: NumPy or dask array over the trailing axes of size,
+    optionally with length-1 axes (broadcast), values = value + a small per-element offset that keeps the
+    parameter valid"""
+    import dask.array as da
+
+    ar = case["arr"]
+    dist = case["dist"]
+    shp = _arr_shape(case)
+    base = np.arange(int(np.prod(shp)) if shp else 1).reshape(shp) % 3
+    if isinstance(value, int) and not isinstance(value, bool):
+        if pname == "nsample":
+            arr0 = (value - base).astype("int64")
+        elif pname == "low":
+            arr0 = (base + value).astype("int64")
+            hi = case["P"].get("high")
+            if hi is not None and dist == "integers":
+                arr0 = np.minimum(arr0, hi - 1)
+            elif hi is not None:
+                arr0 = np.minimum(arr0, hi)
+        else:
+            arr0 = (base + value).astype("int64")
+        if case.get("idtype"):
+            arr0 = arr0.astype(case["idtype"])
+    elif pname == "p":
+        arr0 = value + base * 0.02
+    elif pname in ("left",):
+        arr0 = value - base * 0.25
+    elif pname in ("mode",):
+        arr0 = value + base * 0.125
+    else:
+        arr0 = base * 0.25 + value
+    if ar["kind"] == "da":
+        r = random.Random(ar["c"])
+        arr0 = da.from_array(arr0, chunks=A.rand_chunks(r, shp))
+    return arr0
 
 
 def _draw(g, api, case):
@@ -336,34 +653,117 @@ def _draw(g, api, case):
     meth = getattr(g, gname if api == "gen" else rsname)
     size = tuple(case["shape"])
     ck = _chunks_arg(case["chunks"])
+    sform = case.get("sform", "tuple")
+    size_arg = None if sform == "none" else (size[0] if sform == "int" else (list(size) if sform == "list" else size))
     if dist == "permutation":
         return meth(_perm_value(case["x"])[0])
     if dist == "choice":
         a, _ = _pop_value(case["pop"])
-        p = _p_vector(case["pop"]["n"], 5, 0) if case.get("p") else None
-        return meth(a, size=size, replace=True, p=p, chunks=ck)
+        p = _p_form(_p_vector(case["pop"]["n"], 5, 0), case.get("pform", "np")) if case.get("p") else None
+        kw = {}
+        if case.get("ckw") in ("axis", "both"):
+            kw["axis"] = 0
+        if case.get("ckw") in ("shuffle", "both"):
+            kw["shuffle"] = False
+        return meth(a, size=size_arg, replace=case.get("replace", True), p=p, chunks=ck, **kw)
     P = dict(case["P"])
     args = [P[k] for k in pnames]
+    if case.get("hnone"):
+        args = args[:1]
     if case.get("arr") and args:
-        ar = case["arr"]
-        shp = size[ar["drop"]:]
-        base = np.arange(int(np.prod(shp)) if shp else 1).reshape(shp) % 3
-        if dist in ("binomial", "integers"):
-            arr0 = (base + args[0]).astype("int64")
-            if dist == "integers":
-                arr0 = np.minimum(arr0, args[1] - 1)
-        else:
-            arr0 = base * 0.25 + args[0]
-        if ar["kind"] == "da":
-            r = random.Random(ar["c"])
-            arr0 = da.from_array(arr0, chunks=A.rand_chunks(r, shp))
-        args[0] = arr0
+        i = min(case["arr"].get("pos", 0), len(args) - 1)
+        args[i] = _array_param(case, pnames[i], args[i], size)
     kw = {}
     if case.get("f32"):
         kw["dtype"] = np.float32
     if case.get("endpoint"):
         kw["endpoint"] = True
-    return meth(*args, size=size, chunks=ck, **kw)
+    if case.get("idtype"):
+        kw["dtype"] = case["idtype"]
+    if case.get("kwform"):
+        kw.update(dict(zip(pnames, args)))
+        args = []
+    return meth(*args, size=size_arg, chunks=ck, **kw)
+
+
+def _p_form(p, form):
+    import dask.array as da
+
+    if form == "list":
+        return p.tolist()
+    if form == "da":
+        return da.from_array(p, chunks=max(1, len(p) // 2))       # several blocks when the population has >= 2 members
+    return p
+
+
+def _wrap_exception(ctx, ex, case, api, pre):
+    """dask raised while building / computing a wrapped distribution: one label per mechanism"""
+    dist = case["dist"]
+    arr = case.get("arr")
+    if dist == "permutation" and case["x"]["kind"] in ("numpy", "list"):
+        # one mechanism for both APIs: x is handed to shuffle_slice as it is
+        ctx.exception(ex, prefix="permutation:array-like-input")
+    elif arr and 0 in _arr_shape(case):
+        # one mechanism: _wrap_func indexes element 0 of every array-valued parameter
+        ctx.violation("wrap:zero-size-array-param:%s" % type(ex).__name__, "%s: %s" % (type(ex).__name__, str(ex)[:300]),
+                      api=api, dist=dist, param_kind=arr["kind"])
+    elif arr and dist == "integers" and api == "gen" and DISTS[dist][2][min(arr.get("pos", 0), 1)] == "high" and not case.get("hnone"):
+        # one mechanism: `high` reaches _wrap_func as a keyword and array-valued keywords are put into the graph in a
+        # form that is never resolved (NumPy and dask arrays, every chunking, every scheduler)
+        ctx.violation("wrap:Generator.integers:array-valued-high:%s" % type(ex).__name__, "%s: %s" % (type(ex).__name__, str(ex)[:300]),
+                      param_kind=arr["kind"], family=case["k"])
+    elif dist == "multivariate_hypergeometric":
+        # one mechanism: the result has a trailing axis of len(colors) that the wrapper does not declare (a one-block
+        # result computes with a shape that contradicts the lazy one, several blocks cannot be assembled)
+        ctx.violation("wrap:multivariate_hypergeometric:result-axis-not-declared", "%s: %s" % (type(ex).__name__, str(ex)[:300]),
+                      family=case["k"])
+    else:
+        ctx.exception(ex, prefix=pre)
+
+
+def _count_classes(ctx, case, api, a):
+    """Input classes of the parameter audit (floored: a generator change that loses a class is INCONCLUSIVE)"""
+    dist = case["dist"]
+    fam = case["k"]
+    multi = A.has_split(a.chunks)
+    ctx.distinct("api_dist_blocks", (_apiname(api), dist, "multi" if multi else "single"))
+    if any(_is_irr3([c for c in cs if c == c]) for cs in a.chunks):
+        ctx.count("layout_irregular_ge3_blocks")
+        ctx.distinct("irregular3_api_family", (_apiname(api), _family(dist)))
+    if any(c > 255 for cs in a.chunks for c in cs if c == c):
+        ctx.count("layout_block_over_255")
+    if case["chunks"]["t"] in ("tuple", "-1", "bytes", "dict"):
+        ctx.count("chunks_form_" + case["chunks"]["t"])
+    if dist not in OLD:
+        ctx.count("dist_added_by_audit")
+    arr = case.get("arr")
+    if arr:
+        ctx.count("array_param_not_first" if arr.get("pos", 0) else "array_param_first")
+        if any(arr.get("ones") or ()):
+            ctx.count("array_param_broadcast_len1")
+    if case.get("sform") in ("int", "list", "none"):
+        ctx.count("size_form_" + case["sform"])
+    if case.get("kwform"):
+        ctx.count("params_by_keyword")
+    if case.get("idtype"):
+        ctx.count("integers_dtype")
+    if case.get("hnone"):
+        ctx.count("integers_one_argument")
+    if case.get("endpoint"):
+        ctx.count("integers_endpoint")
+    if fam == "seeded":
+        if case.get("skind", "int") != "int":
+            ctx.count("seed_form_not_int")
+            ctx.distinct("seed_forms", (api, case["skind"]))
+        if case.get("pre"):
+            ctx.count("generator_used_before")
+            if "fail" in case["pre"]:
+                ctx.count("generator_refused_call_before")
+    if dist == "choice":
+        if case.get("p") and case.get("pform") in ("list", "da"):
+            ctx.count("choice_p_" + case["pform"])
+        if case.get("ckw"):
+            ctx.count("choice_axis_shuffle_keywords")
 
 
 def _family(dist):
@@ -403,9 +803,14 @@ def _run_seeded(case, ctx):
     api, dist = case["api"], case["dist"]
     ctx.op("seeded:%s.%s" % (_apiname(api), dist))
     pre = "seeded:%s:%s" % (_apiname(api), _family(dist))
+    def build(c):
+        g = _generator(api, c["seed"], c.get("skind", "int"))
+        _pre(g, api, c.get("pre"))
+        return _draw(g, api, c)
+
     try:
-        a1 = _draw(_generator(api, case["seed"]), api, case)
-        a2 = _draw(_generator(api, case["seed"]), api, case)
+        a1 = build(case)
+        a2 = build(case)
         (v1,) = _compute([a1], "sync")
         (v1b,) = _compute([a1], "sync")
         (v2,) = _compute([a2], case["sched"])
@@ -413,12 +818,7 @@ def _run_seeded(case, ctx):
         ctx.unsupported(str(ex))
         return
     except Exception as ex:  # noqa: BLE001
-        if case.get("arr") and 0 in case["shape"][case["arr"]["drop"]:]:
-            # one mechanism: _wrap_func indexes element 0 of every array-valued parameter
-            ctx.violation("wrap:zero-size-array-param:%s" % type(ex).__name__, "%s: %s" % (type(ex).__name__, str(ex)[:300]),
-                          api=api, dist=dist, param_kind=case["arr"]["kind"])
-        else:
-            ctx.exception(ex, prefix=pre)
+        _wrap_exception(ctx, ex, case, api, pre)
         return
     ctx.nontrivial = A.has_split(a1.chunks)
     ctx.count("seeded_compared")
@@ -432,28 +832,37 @@ def _run_seeded(case, ctx):
         ctx.violation("%s:rebuilt:%s" % (pre, m[0]), m[1], names=[a1.name, a2.name], scheduler=case["sched"],
                       array_param=bool(case.get("arr")))
     if tuple(np.shape(v1)) != tuple(a1.shape):
-        ctx.violation("%s:lazy-shape" % pre, "computed shape %s, lazy %s" % (np.shape(v1), a1.shape))
+        if dist == "multivariate_hypergeometric":
+            ctx.violation("wrap:multivariate_hypergeometric:result-axis-not-declared", "computed shape %s, lazy %s" % (np.shape(v1), a1.shape))
+        else:
+            ctx.violation("%s:lazy-shape" % pre, "computed shape %s, lazy %s" % (np.shape(v1), a1.shape))
     if a1.name == a2.name:
         ctx.count("seeded_same_name")
+    _count_classes(ctx, case, api, a1)
     ctx.sample = {"dist": dist, "api": api, "chunks": str(a1.chunks), "sched": case["sched"], "same_name": a1.name == a2.name}
     # ---- sibling facet: same seed, ONE other distribution parameter / size / chunking / dtype: the arrays hold different
     # draws and must not share keys.  Only for draws that are a function of the graph (seeded AND recomputation agreed);
-    # Generator.choice is not (live BitGenerator in the graph, known finding) and permutation is named from (x, index).
-    if dist not in ("permutation",) and not (dist == "choice" and api == "gen") and compare_arrays(v1b, v1, exact=True) is None:
-        sib = _sibling(case)
+    # permutation is named from (x, index).
+    if dist not in ("permutation",) and compare_arrays(v1b, v1, exact=True) is None:
+        sib = _sibling(case, single=not A.has_split(a1.chunks))
         if sib is not None:
             param, c2 = sib
             S.check(ctx, "seeded:%s:%s" % (_apiname(api), _family(dist)), param, a1,
-                    (lambda: _draw(_generator(api, case["seed"]), api, c2)), va=v1,
+                    (lambda: build(c2)), va=v1,
                     describe={k: v for k, v in c2.items() if case.get(k) != v})
 
 
 _TWEAK = {"loc": lambda v: v + 1.0, "scale": lambda v: v * 2.0, "low": lambda v: v - 1, "high": lambda v: v + 1,
           "lam": lambda v: v + 1.0, "n": lambda v: v + 1, "p": lambda v: 0.25 if v == 0.5 else 0.5, "shape": lambda v: v + 1.0,
-          "a": lambda v: v + 1.0, "b": lambda v: v + 1.0, "df": lambda v: v + 1.0}
+          "a": lambda v: v + 1.0, "b": lambda v: v + 1.0, "df": lambda v: v + 1.0,
+          "dfnum": lambda v: v + 1.0, "dfden": lambda v: v + 1.0, "nonc": lambda v: v + 1.0, "mean": lambda v: v + 1.0,
+          "sigma": lambda v: v * 2.0, "ngood": lambda v: v + 1, "nbad": lambda v: v + 1, "nsample": lambda v: v - 1,
+          "pvals": lambda v: ([0.25, 0.75] if len(v) == 1 else list(v[1:]) + list(v[:1])) if len(set(v)) != 1 or len(v) == 1 else [0.9] + [0.1 / (len(v) - 1)] * (len(v) - 1),
+          "colors": lambda v: [v[0] + 1] + list(v[1:]), "left": lambda v: v - 1.0, "mode": lambda v: v + 0.25,
+          "right": lambda v: v + 1.0, "mu": lambda v: v + 1.0, "kappa": lambda v: v + 1.0}
 
 
-def _sibling(case):
+def _sibling(case, single=False):
     """(parameter, seeded case with that ONE parameter changed) or None"""
     dist, api = case["dist"], case["api"]
     shape = list(case["shape"])
@@ -471,16 +880,47 @@ def _sibling(case):
     if dist == "integers" and api == "gen":
         opts.append("endpoint")
     if dist == "choice":
-        opts.append("p")
+        opts += ["p", "replace"] if single else ["p"]
+    if case.get("idtype"):
+        opts.append("integers-dtype")
+    if case.get("arr"):
+        opts += ["array-parameter", "array-parameter"]
     if not opts:
         return None
     what = srng.choice(opts)
+    if what == "array-parameter":
+        # the same array-valued parameter with other values (dask or NumPy array: it has to reach the name)
+        pn = DISTS[dist][2][min(case["arr"].get("pos", 0), len(DISTS[dist][2]) - 1)]
+        if pn in ("low", "nsample") or case.get("hnone"):
+            what = "param"
+        else:
+            c2["P"] = dict(case["P"], **{pn: _TWEAK[pn](case["P"][pn])})
+            return "array-valued-parameter", c2
+    if what == "integers-dtype":
+        c2["idtype"] = srng.choice([t for t in ("int8", "uint8", "int32", "uint64", "int16") if t != case["idtype"]])
+        return "dtype", c2
+    if what == "replace":
+        # without replacement needs a one-block sample that fits into the population
+        n_el = int(np.prod(shape)) if shape else 1
+        if n_el > case["pop"]["n"] or case.get("p") or case.get("sform") == "none":
+            what = "p"
+        else:
+            c2["replace"] = False
+            return "replace", c2
     if what == "param":
-        keys = sorted(case["P"])
-        if case.get("arr") and dist == "integers":
+        keys = sorted(k for k in case["P"] if case["P"][k] is not None)
+        if case.get("arr") and dist in ("integers", "random_integers"):
             keys = ["high"]        # the array-valued `low` is built below `high`
+        if case.get("hnone"):
+            keys = ["low"]
+        if dist == "hypergeometric" and case.get("arr"):
+            keys = ["ngood", "nbad"]
+        if dist == "triangular":
+            keys = ["right"] if case.get("arr") else ["left", "right"]
+        if dist == "multinomial" and len(case["P"]["pvals"]) == 1:
+            keys = ["n"]                # pvals = [1.0]: every count is n whatever else changes
         k = srng.choice(keys)
-        c2["P"] = dict(case["P"], **{k: _TWEAK[k](case["P"][k])})
+        c2["P"] = dict(case["P"], **{k: (case["P"][k] + 1) if case.get("hnone") else _TWEAK[k](case["P"][k])})
         # one label for all of loc/scale/low/high/lam/n/p/a/b/df/shape: they reach the name through one token (_wrap_func);
         # which parameter was changed is in the witness detail
         return "distribution-parameter", c2
@@ -525,10 +965,11 @@ def _run_unseeded(case, ctx):
         ctx.unsupported(str(ex))
         return
     except Exception as ex:  # noqa: BLE001
-        ctx.exception(ex, prefix=pre)
+        _wrap_exception(ctx, ex, case, api, pre)
         return
     ctx.nontrivial = A.has_split(a.chunks)
     ctx.count("unseeded_pairs")
+    _count_classes(ctx, case, api, a)
     ctx.distinct("unseeded_mode_dist", (mode, dist))
     # Calibration: permutation(x) is x[index] with a host-side index; its name is a function of (x, index), so two
     # unseeded permutations share a name exactly when they drew the same index (certain for len(x) <= 1)
@@ -547,7 +988,7 @@ def _run_unseeded(case, ctx):
         (vb,) = _compute([b], "sync")
         (va2,) = _compute([a], case["sched"])
     except Exception as ex:  # noqa: BLE001
-        ctx.exception(ex, prefix=pre)
+        _wrap_exception(ctx, ex, case, api, pre)
         return
     m = compare_arrays(va2, va, exact=True)
     if m:
@@ -586,7 +1027,7 @@ def _run_choice(case, ctx):
     pre = "choice-noreplace:%s:%s" % (_apiname(api), split)
     a, members = _pop_value(pop)
     p = _p_vector(n_pop, case["pseed"], min(want, n_pop)) if case["p"] else None
-    size_arg = None if case["form"] == "none" else (size[0] if case["form"] == "int" else size)
+    size_arg = None if case["form"] == "none" else (size[0] if case["form"] == "int" else (list(size) if case["form"] == "list" else size))
     if multi or case["cform"] == "explicit":
         ck = tuple(tuple(c) for c in case["c"])
     else:
@@ -601,8 +1042,15 @@ def _run_choice(case, ctx):
     try:
         g = _generator(api, case["seed"])
         kw = {"shuffle": False} if (api == "gen" and not case["shuffle"]) else {}
-        r = g.choice(a, size=size_arg, replace=False, p=p, chunks=ck, **kw)
+        pd = _p_form(p, case.get("pform", "np")) if p is not None else None
+        r = g.choice(a, size=size_arg, replace=False, p=pd, chunks=ck, **kw)
         (v,) = _compute([r], case["sched"])
+        v_again = None
+        if case["seed"] is not None:
+            # seeded: the sample without replacement is reproducible from a fresh generator as well
+            r2 = _generator(api, case["seed"]).choice(_pop_value(pop)[0], size=size_arg, replace=False,
+                                                      p=_p_form(p, case.get("pform", "np")) if p is not None else None, chunks=ck, **kw)
+            (v_again,) = _compute([r2], "sync")
     except NotImplementedError as ex:
         ctx.unsupported(str(ex))
         return
@@ -619,6 +1067,20 @@ def _run_choice(case, ctx):
         return
     v = np.asarray(v)
     ctx.count("choice_checked")
+    ctx.distinct("choice_noreplace_paths", (_apiname(api), "int" if pop["kind"] == "int" else "array", split, bool(case["p"])))
+    if pop["kind"] == "int":
+        ctx.count("choice_noreplace_int_population_" + _apiname(api))
+    if n_pop > 255:
+        ctx.count("choice_noreplace_population_over_255")
+    if len(size) >= 3:
+        ctx.count("choice_noreplace_3d")
+    if p is not None and case.get("pform") in ("list", "da"):
+        ctx.count("choice_noreplace_p_" + case["pform"])
+    if v_again is not None:
+        ctx.count("choice_noreplace_rebuilt")
+        m = compare_arrays(np.asarray(v_again), v, exact=True)
+        if m:
+            ctx.violation("seeded:%s:choice-noreplace:rebuilt:%s" % (_apiname(api), m[0]), m[1], scheduler=case["sched"])
     ctx.nontrivial = want >= 2
     if want > n_pop:
         ctx.violation(pre + ":size>population:no-error", "returned %d elements from a population of %d" % (v.size, n_pop))
@@ -642,7 +1104,8 @@ def _run_choice(case, ctx):
 def _run_perm(case, ctx):
     api = case["api"]
     ctx.op("permutation:%s" % _apiname(api))
-    pre = "permutation:%s:%s" % (_apiname(api), case["x"]["kind"])
+    kind = case["x"]["kind"]
+    pre = "permutation:%s:%s" % (_apiname(api), kind) if kind in ("int", "dask") else "permutation:array-like-input"
     x, vals = _perm_value(case["x"])
     try:
         g = _generator(api, case["seed"])
@@ -656,7 +1119,11 @@ def _run_perm(case, ctx):
         return
     v = np.asarray(v)
     ctx.count("permutation_checked")
+    if kind in ("numpy", "list"):
+        ctx.count("permutation_array_like_input")
     ctx.nontrivial = A.has_split(r.chunks) or (case["x"]["kind"] == "dask" and A.has_split(A.chunks_of_desc(case["x"]["c"])))
+    if any(_is_irr3(cs) for cs in r.chunks):
+        ctx.count("permutation_irregular_ge3_blocks")
     if v.shape != vals.shape:
         ctx.violation(pre + ":shape", "shape %s, input %s" % (v.shape, vals.shape))
         return
